@@ -40,27 +40,289 @@ def _body(fn):
     return [s for s in fn.body if not _is_doc(s)]
 
 
-def _tmpl(src):
-    body = ast.parse(textwrap.dedent(src)).body
-    assert len(body) == 1, src
-    return body[0]
+# ------------------------------------------------------------------ normalisation (robustness round)
+# Every rewrite below maps one surface shape to ONE canonical shape and preserves the behaviour for all inputs; it is
+# applied to the bodies read from the tree AND to the templates, so equivalent spellings give the same Lean term.
+def _terminates(body):
+    """does every path through `body` end in return / raise / continue / break?"""
+    if not body:
+        return False
+    last = body[-1]
+    if isinstance(last, (ast.Return, ast.Raise, ast.Continue, ast.Break)):
+        return True
+    if isinstance(last, ast.If):
+        return _terminates(last.body) and _terminates(last.orelse)
+    return False
+
+
+def _names_in(node):
+    return {n.id for n in ast.walk(node) if isinstance(n, ast.Name)}
+
+
+def _is_call(e, fname, nargs=None):
+    return (isinstance(e, ast.Call) and isinstance(e.func, ast.Name) and e.func.id == fname and not e.keywords
+            and (nargs is None or len(e.args) == nargs))
+
+
+def _keys_of(e):
+    """D for `D.keys()`"""
+    if (isinstance(e, ast.Call) and not e.args and not e.keywords and isinstance(e.func, ast.Attribute)
+            and e.func.attr == "keys" and isinstance(e.func.value, ast.Name)):
+        return e.func.value.id
+    return None
+
+
+class Normaliser:
+    def __init__(self, fn_all_names, always_dicts):
+        self.all_names = fn_all_names          # every Name occurring in the function (to judge "used nowhere else")
+        self.always_dicts = set(always_dicts)  # names that hold a dict whenever they are read
+
+    # ---- expressions
+    def expr(self, e, dicts):
+        if e is None or not isinstance(e, ast.AST):
+            return e
+        for f, v in ast.iter_fields(e):
+            if isinstance(v, list):
+                setattr(e, f, [self.expr(x, dicts) if isinstance(x, ast.AST) else x for x in v])
+            elif isinstance(v, ast.AST):
+                setattr(e, f, self.expr(v, dicts))
+        # `not a in b` == `a not in b` (the `in` protocol returns a truth value that `not` negates either way)
+        if isinstance(e, ast.UnaryOp) and isinstance(e.op, ast.Not) and isinstance(e.operand, ast.Compare) \
+                and len(e.operand.ops) == 1 and isinstance(e.operand.ops[0], (ast.In, ast.NotIn)):
+            c = e.operand
+            c.ops = [ast.NotIn() if isinstance(c.ops[0], ast.In) else ast.In()]
+            return c
+        # `not x` == `False if x else True` (both test the truth of x exactly once and give a bool)
+        if isinstance(e, ast.UnaryOp) and isinstance(e.op, ast.Not):
+            return ast.IfExp(test=e.operand, body=ast.Constant(False), orelse=ast.Constant(True))
+        # `list(d)` == `list(d.keys())` for a dict d (iterating a dict yields its keys)
+        if _is_call(e, "list", 1) and isinstance(e.args[0], ast.Name) and e.args[0].id in dicts:
+            d = e.args[0]
+            e.args = [ast.Call(func=ast.Attribute(value=d, attr="keys", ctx=ast.Load()), args=[], keywords=[])]
+            return e
+        # "…{}…".format(a, b) == f"…{a}…{b}…" when the literal holds only plain `{}` fields (format(x, "") both ways)
+        if (isinstance(e, ast.Call) and isinstance(e.func, ast.Attribute) and e.func.attr == "format" and not e.keywords
+                and isinstance(e.func.value, ast.Constant) and isinstance(e.func.value.value, str)
+                and not any(isinstance(a, ast.Starred) for a in e.args)):
+            lit = e.func.value.value
+            parts = lit.split("{}")
+            if len(parts) == len(e.args) + 1 and not any("{" in p or "}" in p for p in parts):
+                vals = []
+                for i, p_ in enumerate(parts):
+                    if p_:
+                        vals.append(ast.Constant(p_))
+                    if i < len(e.args):
+                        vals.append(ast.FormattedValue(value=e.args[i], conversion=-1, format_spec=None))
+                return ast.JoinedStr(values=vals)
+        if isinstance(e, ast.JoinedStr):
+            # adjacent literal pieces are one literal
+            vals = []
+            for v in e.values:
+                if isinstance(v, ast.Constant) and vals and isinstance(vals[-1], ast.Constant):
+                    vals[-1] = ast.Constant(vals[-1].value + v.value)
+                else:
+                    vals.append(v)
+            e.values = vals
+        return e
+
+    @staticmethod
+    def _keyview(e, dicts):
+        if _is_call(e, "list", 1):
+            e = e.args[0]
+        d = _keys_of(e) or (e.id if isinstance(e, ast.Name) else None)
+        return d is not None and d in dicts
+
+    # ---- statement lists
+    def block(self, body, dicts):
+        out = []
+        body = [s_ for s_ in body if not _is_doc(s_)]
+        i = 0
+        while i < len(body):
+            st = body[i]
+            nxt = body[i + 1] if i + 1 < len(body) else None
+            # `if c: x = A else: x = B`  ==  `x = A if c else B` (one plain name bound in both single-statement branches)
+            if (isinstance(st, ast.If) and len(st.body) == 1 and len(st.orelse) == 1
+                    and all(isinstance(b_, ast.Assign) and len(b_.targets) == 1 and isinstance(b_.targets[0], ast.Name) for b_ in (st.body[0], st.orelse[0]))
+                    and st.body[0].targets[0].id == st.orelse[0].targets[0].id):
+                st = ast.Assign(targets=[st.body[0].targets[0]],
+                                value=ast.IfExp(test=st.test, body=st.body[0].value, orelse=st.orelse[0].value), lineno=0)
+            # `return A if c else B`  ==  `if c: return A` + `return B`
+            if isinstance(st, ast.Return) and isinstance(st.value, ast.IfExp):
+                body[i:i + 1] = [ast.If(test=st.value.test, body=[ast.Return(value=st.value.body)], orelse=[]),
+                                 ast.Return(value=st.value.orelse)]
+                continue
+            # `x = [E for v in IT if C]`  ==  `x = []` + `for v in IT: if C: x.append(E)`; the loop variable would leak, so
+            # only when `v` occurs nowhere outside the comprehension; E / C must not mention x
+            if (isinstance(st, ast.Assign) and len(st.targets) == 1 and isinstance(st.targets[0], ast.Name)
+                    and isinstance(st.value, ast.ListComp) and len(st.value.generators) == 1
+                    and isinstance(st.value.generators[0].target, ast.Name) and not st.value.generators[0].is_async):
+                g = st.value.generators[0]
+                x, v = st.targets[0].id, g.target.id
+                inside = sum(1 for n in ast.walk(st.value) if isinstance(n, ast.Name) and n.id == v)
+                if self.all_names.get(v, 0) == inside and x not in _names_in(st.value):
+                    app = ast.Expr(ast.Call(func=ast.Attribute(value=ast.Name(id=x, ctx=ast.Load()), attr="append", ctx=ast.Load()),
+                                            args=[st.value.elt], keywords=[]))
+                    inner = [app]
+                    for cond in reversed(g.ifs):
+                        inner = [ast.If(test=cond, body=inner, orelse=[])]
+                    body[i:i + 1] = [ast.Assign(targets=[st.targets[0]], value=ast.List(elts=[], ctx=ast.Load())),
+                                     ast.For(target=g.target, iter=g.iter, body=inner, orelse=[])]
+                    continue
+            # `v = list(d.keys())` used only as the iterable of the very next `for`  ==  `for … in list(d.keys())`
+            # (nothing runs in between; restricted to key views of known dicts: no side effect is moved)
+            if (isinstance(st, ast.Assign) and len(st.targets) == 1 and isinstance(st.targets[0], ast.Name)
+                    and isinstance(nxt, ast.For) and isinstance(nxt.iter, ast.Name) and nxt.iter.id == st.targets[0].id
+                    and self.all_names.get(st.targets[0].id, 0) == 2 and self._keyview(st.value, dicts)):
+                nxt.iter = st.value
+                i += 1
+                continue
+            if isinstance(st, ast.For):
+                # `for k in list(d.keys())` == `for k in d.keys()` == `for k in d` when the body never touches d
+                it = st.iter
+                if _is_call(it, "list", 1):
+                    inner = it.args[0]
+                    d = _keys_of(inner) or (inner.id if isinstance(inner, ast.Name) else None)
+                else:
+                    d = _keys_of(it)
+                if d is not None and d in dicts and d not in {n for b_ in st.body for n in _names_in(b_)}:
+                    st.iter = ast.Name(id=d, ctx=ast.Load())
+            # a tuple of exception classes == one handler per class with the same body (no name bound)
+            if isinstance(st, ast.Try):
+                hs = []
+                for h in st.handlers:
+                    if isinstance(h.type, ast.Tuple) and h.name is None:
+                        hs += [ast.ExceptHandler(type=t, name=None, body=[_copy(b_) for b_ in h.body]) for t in h.type.elts]
+                    else:
+                        hs.append(h)
+                st.handlers = hs
+            # recurse
+            if isinstance(st, ast.If):
+                st.test = self.expr(st.test, dicts)
+                inner_d = set(dicts)
+                t = st.test
+                if _is_call(t, "isinstance", 2) and isinstance(t.args[0], ast.Name) and isinstance(t.args[1], ast.Name) and t.args[1].id == "dict":
+                    inner_d.add(t.args[0].id)
+                st.body = self.block(st.body, inner_d)
+                st.orelse = self.block(st.orelse, dicts)
+                # `else:` / `elif` after a branch that always returns / raises / continues / breaks == no else
+                if st.orelse and _terminates(st.body):
+                    rest = st.orelse
+                    st.orelse = []
+                    out.append(st)
+                    body[i + 1:i + 1] = []
+                    out += rest
+                    i += 1
+                    continue
+            elif isinstance(st, (ast.For, ast.While)):
+                if isinstance(st, ast.For):
+                    st.iter = self.expr(st.iter, dicts)
+                else:
+                    st.test = self.expr(st.test, dicts)
+                st.body = self.block(st.body, dicts)
+                st.orelse = self.block(st.orelse, dicts)
+            elif isinstance(st, ast.Try):
+                st.body = self.block(st.body, dicts)
+                for h in st.handlers:
+                    h.body = self.block(h.body, dicts)
+                st.orelse = self.block(st.orelse, dicts)
+                st.finalbody = self.block(st.finalbody, dicts)
+            elif isinstance(st, ast.With):
+                st.body = self.block(st.body, dicts)
+            else:
+                st = self.expr(st, dicts)
+            out.append(st)
+            i += 1
+        return out
+
+
+def _copy(node):
+    return ast.parse(ast.unparse(node)).body[0] if isinstance(node, ast.stmt) else node
+
+
+def _name_counts(nodes):
+    c = {}
+    for nd in nodes:
+        for n in ast.walk(nd):
+            if isinstance(n, ast.Name):
+                c[n.id] = c.get(n.id, 0) + 1
+    return c
+
+
+def _always_dicts(fn_or_stmts, params_kw=()):
+    """names that are a dict whenever read: the `**kwargs` parameter, and locals whose every binding is `{}` / a dict display"""
+    stmts = fn_or_stmts
+    bound, notdict = set(), set()
+    for nd in stmts:
+        for n in ast.walk(nd):
+            tgts = []
+            if isinstance(n, ast.Assign):
+                tgts = [(t, n.value) for t in n.targets]
+            elif isinstance(n, (ast.AugAssign, ast.AnnAssign)):
+                tgts = [(n.target, None)]
+            elif isinstance(n, (ast.For, ast.comprehension)):
+                tgts = [(n.target, None)]
+            elif isinstance(n, ast.ExceptHandler) and n.name:
+                notdict.add(n.name)
+            elif isinstance(n, ast.withitem) and n.optional_vars is not None:
+                tgts = [(n.optional_vars, None)]
+            for t, v in tgts:
+                for nm in ast.walk(t):
+                    if isinstance(nm, ast.Name) and isinstance(nm.ctx, ast.Store):
+                        if t is nm and isinstance(v, ast.Dict):
+                            bound.add(nm.id)
+                        else:
+                            notdict.add(nm.id)
+    return (bound - notdict) | set(params_kw)
+
+
+def normalise(stmts, params_kw=()):
+    stmts = [s_ for s_ in stmts if not _is_doc(s_)]
+    return Normaliser(_name_counts(stmts), _always_dicts(stmts, params_kw)).block(stmts, _always_dicts(stmts, params_kw))
+
+
+def _tmpl(src, params_kw=()):
+    """a template = a normalised statement SEQUENCE"""
+    return normalise(ast.parse(textwrap.dedent(src)).body, params_kw)
 
 
 _SKIP = {"ctx", "lineno", "col_offset", "end_lineno", "end_col_offset", "type_comment", "kind"}
 
 
-def unify(t, a, cap):
+class Match:
+    """state of the unification of one function: holes, and the renaming template-local -> actual name (alpha
+    renaming of locals: consistent, injective, and never onto a name the function also uses literally)"""
+
+    def __init__(self, locals_):
+        self.locals = set(locals_)
+        self.ren, self.inv, self.literal = {}, {}, set()
+
+    def name(self, t, a):
+        if t in self.locals:
+            if self.ren.get(t, a) != a or self.inv.get(a, t) != t:
+                return False
+            self.ren[t], self.inv[a] = a, t
+            return True
+        self.literal.add(t)
+        return t == a
+
+    def ok(self):
+        return not (set(self.inv) & self.literal)
+
+
+def unify(t, a, cap, M):
     """structural match of template `t` against actual `a`; template names HOLE_x capture the actual subtree"""
     if isinstance(t, ast.Name) and t.id.startswith("HOLE_"):
         cap.setdefault(t.id[5:], []).append(a)
         return True
     if type(t) is not type(a):
         return False
+    if isinstance(t, ast.Name):
+        return M.name(t.id, a.id)
     if isinstance(t, ast.AST):
         for f in t._fields:
             if f in _SKIP:
                 continue
-            if not unify(getattr(t, f, None), getattr(a, f, None), cap):
+            if not unify(getattr(t, f, None), getattr(a, f, None), cap, M):
                 return False
         return True
     if isinstance(t, list):
@@ -69,7 +331,7 @@ def unify(t, a, cap):
             a = [x for x in a if not _is_doc(x)]
         if len(t) != len(a):
             return False
-        return all(unify(x, y, cap) for x, y in zip(t, a))
+        return all(unify(x, y, cap, M) for x, y in zip(t, a))
     return t == a
 
 
@@ -102,9 +364,15 @@ GETTERS = {"get_name": "NExp.name", "get_data_type": "NExp.dtype"}
 MEMBER_VARS = ("member", "amember", "m")
 
 
+def _member_var(name):
+    """is `name` what the tree calls one of the templates' MemberSpec_ loop variables?"""
+    M = CURRENT["M"]
+    return name in {M.ren.get(v, v) for v in MEMBER_VARS} if M else name in MEMBER_VARS
+
+
 def nexp(e, where):
     if (isinstance(e, ast.Call) and not e.args and not e.keywords and isinstance(e.func, ast.Attribute)
-            and isinstance(e.func.value, ast.Name) and e.func.value.id in MEMBER_VARS and e.func.attr in GETTERS):
+            and isinstance(e.func.value, ast.Name) and _member_var(e.func.value.id) and e.func.attr in GETTERS):
         return GETTERS[e.func.attr]
     raise Refuse("%s: not a MemberSpec_ getter I know: %s" % (where, _src(e)))
 
@@ -113,7 +381,7 @@ def bexp(e, where):
     if isinstance(e, ast.Constant) and isinstance(e.value, bool):
         return "(BExp.const %s)" % ("true" if e.value else "false")
     if (isinstance(e, ast.Call) and not e.args and not e.keywords and isinstance(e.func, ast.Attribute)
-            and isinstance(e.func.value, ast.Name) and e.func.value.id in MEMBER_VARS and e.func.attr == "get_optional"):
+            and isinstance(e.func.value, ast.Name) and _member_var(e.func.value.id) and e.func.attr == "get_optional"):
         return "BExp.optional"
     if isinstance(e, ast.IfExp):
         return "(BExp.ite %s %s %s)" % (bexp(e.test, where), bexp(e.body, where), bexp(e.orelse, where))
@@ -145,19 +413,48 @@ def same(vals, where):
     return vals[0]
 
 
-def translate_body(stmts, forms, where):
-    """forms: list of (template source, builder(cap) -> Lean term or None to ignore). every statement must match one form"""
-    out = []
-    for s in stmts:
-        for src, build in forms:
+def _template_locals(forms, params_kw=()):
+    """names bound somewhere in the templates of one function (its locals; parameters and globals are never bound)"""
+    out = set()
+    for src, _ in forms:
+        for st in _tmpl(src, params_kw):
+            for n in ast.walk(st):
+                if isinstance(n, ast.Name) and isinstance(n.ctx, ast.Store) and not n.id.startswith("HOLE_"):
+                    out.add(n.id)
+                elif isinstance(n, ast.ExceptHandler) and n.name:
+                    out.add(n.name)
+    return out
+
+
+CURRENT = {"M": None}     # the Match of the function being translated (the expression translators ask it for renamings)
+
+
+def translate_body(stmts, forms, where, params_kw=()):
+    """forms: list of (template source = a statement SEQUENCE, builder(cap) -> Lean term | [terms] | None).  The
+    normalised body must be a concatenation of matched forms; anything else is refused."""
+    body = normalise(stmts, params_kw)
+    M = Match(_template_locals(forms, params_kw))
+    CURRENT["M"] = M
+    tmpls = [(_tmpl(src, params_kw), build) for src, build in forms]
+    out, i = [], 0
+    while i < len(body):
+        for tm, build in tmpls:
+            k = len(tm)
+            if k == 0 or i + k > len(body):
+                continue
             cap = {}
-            if unify(_tmpl(src), s, cap):
+            saved = (dict(M.ren), dict(M.inv), set(M.literal))
+            if unify(tm, body[i:i + k], cap, M) and M.ok():
                 term = build(cap)
-                if term is not None:
+                if isinstance(term, list):
+                    out += term
+                elif term is not None:
                     out.append(term)
+                i += k
                 break
+            M.ren, M.inv, M.literal = saved
         else:
-            raise Refuse("%s: statement not understood: %s" % (where, _src(s)))
+            raise Refuse("%s: statement not understood: %s" % (where, _src(body[i])))
     return out
 
 
@@ -381,17 +678,18 @@ def tr_check(fn):
 for m in members:
     member_names.append(HOLE_e)
 """, lambda c: "(CCmd.forCollect %s)" % nexp(one(c, "e", "_check_arg_list")[0], "_check_arg_list")),
-        ("args = list(kwargs.keys())", lambda c: "CCmd.bindArgs"),
+        # `args = list(kwargs.keys())` + `for arg in args:` (normal form: `for arg in kwargs:`) -> two vocabulary terms
         ('''
+args = list(kwargs.keys())
 for arg in args:
     if arg not in member_names:
         err = f"'{arg}' is not a permitted argument for ComponentType '{self.__class__.__name__}'\\n"
         print(err)
         self.info()
         raise ValueError(err)
-''', lambda c: "CCmd.forArgsRaise"),
+''', lambda c: ["CCmd.bindArgs", "CCmd.forArgsRaise"]),
     ]
-    return translate_body(_body(fn), forms, "_check_arg_list")
+    return translate_body(_body(fn), forms, "_check_arg_list", params_kw=("kwargs",))
 
 
 # ------------------------------------------------------------------ get_by_id
